@@ -478,3 +478,62 @@ Section Branches.
     exact (rel_then_abs hb ab Hha (s0 :: r0) [] (absorb [] P) He HX1 HX2).
   Qed.
 End Branches.
+
+(* ================================================================ 4. the result of uriAddBaseUri as a record *)
+(* scheme, the authority as uriCopyAuthority copies it from [au], path, flag, query, fragment *)
+Definition build (sc : option text) (au : uri) (segs : list text) (ab : bool) (q f : option text) : uri :=
+  mkUri sc (userInfo au) (hostText au) (ip4 au)
+        (match ip4 au with Some _ => None | None => ip6 au end)
+        (match ip4 au, ip6 au with None, None => ipFuture au | _, _ => None end)
+        (portText au) segs q f ab false.
+
+Lemma host_build sc au segs ab q f : is_host_set (build sc au segs ab q f) = is_host_set au.
+Proof. unfold build, is_host_set. cbn [hostText ip4 ip6 ipFuture]. destruct (hostText au), (ip4 au), (ip6 au), (ipFuture au); reflexivity. Qed.
+
+Ltac urec :=
+  cbv [scheme userInfo hostText ip4 ip6 ipFuture portText pathSegs query fragment absolutePath owner
+       set_scheme set_userInfo set_hostText set_ip4 set_ip6 set_ipFuture set_portText set_pathSegs
+       set_query set_fragment set_absolutePath copy_authority copy_path empty_uri].
+
+Lemma add_base_build c R B sb : scheme B = Some sb ->
+  snd (add_base c R B) =
+  let hr := is_host_set R in let ar := absolutePath R in
+  let hb := is_host_set B in let ab := absolutePath B in
+  if keeps_scheme c (Some sb) R
+  then build (scheme R) R (fixtrail_p hr (fixamb_p hr ar (rds_p hr ar (pathSegs R)))) ar (query R) (fragment R)
+  else if hr
+  then build (Some sb) R (fixtrail_p hr (rds_p hr ar (pathSegs R))) ar (query R) (fragment R)
+  else if is_nil (pathSegs R) && negb ar
+  then build (Some sb) B (fixtrail_p hb (pathSegs B)) ab
+             (match query R with Some q => Some q | None => query B end) (fragment R)
+  else if ar
+  then build (Some sb) B (fixtrail_p hb (fixamb_p hb (negb hb) (rds_p hb (negb hb) (under_host hb (pathSegs R)))))
+             (negb hb) (query R) (fragment R)
+  else build (Some sb) B (fixtrail_p hb (fixamb_p hb ab (rds_p hb ab (removelast (pathSegs B) ++ pathSegs R))))
+             ab (query R) (fragment R).
+Proof.
+  intros Hsb. cbv zeta. unfold add_base, add_base_impl. rewrite Hsb. cbv zeta.
+  fold (keeps_scheme c (Some sb) R).
+  destruct (keeps_scheme c (Some sb) R).
+  { cbn [snd]. rewrite rds_nf, fixamb_nf, fixtrail_nf. autorewrite with uri_db. usimpl.
+    unfold build. destruct R as [sc ui ht i4 i6 ifu po ps qu fr ab' ow]; urec; reflexivity. }
+  destruct (is_host_set R) eqn:Hh.
+  { cbn [snd]. rewrite rds_nf, fixtrail_nf. autorewrite with uri_db. usimpl. rewrite Hh.
+    unfold build. destruct R as [sc ui ht i4 i6 ifu po ps qu fr ab' ow]; urec; reflexivity. }
+  destruct (absolutePath R) eqn:Ha.
+  { rewrite andb_false_r.
+    assert (forall (Y : uri), match pathSegs R with [] => Y | _ :: _ => Y end = Y) as Em
+      by (intros Y; destruct (pathSegs R); reflexivity).
+    rewrite Em. cbn [snd]. rewrite resabs_nf. autorewrite with uri_db. usimpl. rewrite Ha, andb_true_r.
+    destruct (is_host_set B) eqn:Hb.
+    - rewrite rds_nf, fixamb_nf, fixtrail_nf. autorewrite with uri_db. usimpl. rewrite Hb.
+      unfold build, under_host. destruct B as [sc ui ht i4 i6 ifu po ps qu fr ab' ow]; urec; reflexivity.
+    - rewrite rds_nf, fixamb_nf, fixtrail_nf. autorewrite with uri_db. usimpl. rewrite Hb, Ha.
+      unfold build, under_host, copy_path. rewrite Ha. destruct B as [sc ui ht i4 i6 ifu po ps qu fr ab' ow]; urec; reflexivity. }
+  destruct (pathSegs R) as [|r1 rs] eqn:Ep.
+  { cbn [is_nil andb negb snd]. rewrite fixtrail_nf. autorewrite with uri_db. usimpl.
+    unfold build. destruct B as [sc ui ht i4 i6 ifu po ps qu fr ab' ow]; urec; reflexivity. }
+  cbn [is_nil andb snd]. rewrite merge_nf. usimpl. rewrite Ep.
+  rewrite rds_nf, fixamb_nf, fixtrail_nf. autorewrite with uri_db. usimpl.
+  unfold build. destruct B as [sc ui ht i4 i6 ifu po ps qu fr ab' ow]; urec; reflexivity.
+Qed.
